@@ -622,7 +622,9 @@ void format_data(
     }
   }
 
-  uint64_t end_address = start_address + total_size;
+  // Address of the last byte. Unlike start_address + total_size, this does not
+  // wrap to zero when the data ends exactly at the top of the address space.
+  uint64_t last_address = start_address + (total_size - 1);
 
   int width_digits;
   if (flags & PrintDataFlags::OFFSET_8_BITS) {
@@ -633,11 +635,11 @@ void format_data(
     width_digits = 8;
   } else if (flags & PrintDataFlags::OFFSET_64_BITS) {
     width_digits = 16;
-  } else if (end_address > 0x100000000) {
+  } else if (last_address >= 0x100000000) {
     width_digits = 16;
-  } else if (end_address > 0x10000) {
+  } else if (last_address >= 0x10000) {
     width_digits = 8;
-  } else if (end_address > 0x100) {
+  } else if (last_address >= 0x100) {
     width_digits = 4;
   } else {
     width_digits = 2;
@@ -669,14 +671,15 @@ void format_data(
   size_t current_iov_bytes = 0;
   size_t prev_iov_index = 0;
   size_t prev_iov_bytes = 0;
-  for (uint64_t line_start_address = start_address & (~0x0F);
-       line_start_address < end_address;
-       line_start_address += 0x10) {
+  uint64_t first_line_start_address = start_address & (~0x0F);
+  uint64_t num_lines = ((last_address - first_line_start_address) >> 4) + 1;
+  for (uint64_t line_index = 0; line_index < num_lines; line_index++) {
 
     // Figure out the boundaries of the current line
-    uint64_t line_end_address = line_start_address + 0x10;
+    uint64_t line_start_address = first_line_start_address + (line_index << 4);
+    uint64_t line_last_address = line_start_address + 0x0F;
     uint8_t line_invalid_start_bytes = max<int64_t>(start_address - line_start_address, 0);
-    uint8_t line_invalid_end_bytes = max<int64_t>(line_end_address - end_address, 0);
+    uint8_t line_invalid_end_bytes = max<int64_t>(line_last_address - last_address, 0);
     uint8_t line_bytes = 0x10 - line_invalid_end_bytes - line_invalid_start_bytes;
 
     auto print_fields_column = [&]<typename LoadedDataT, typename StoredDataT>(
@@ -736,7 +739,7 @@ void format_data(
       }
     }
 
-    if (collapse_zero_lines && (line_start_address > start_address) && (line_end_address < end_address) &&
+    if (collapse_zero_lines && (line_start_address > start_address) && (line_last_address < last_address) &&
         !memcmp(line_buf, "\0\0\0\0\0\0\0\0\0\0\0\0\0\0\0\0", 16) &&
         !memcmp(prev_line_data, "\0\0\0\0\0\0\0\0\0\0\0\0\0\0\0\0", 16)) {
       continue;
